@@ -606,6 +606,10 @@ static ASMJIT_FAVOR_SIZE Error validate(InstDB::Mode mode, const BaseInst& inst,
     // was out of bounds. We can return a more descriptive error if we know this.
     bool global_imm_out_of_range = false;
 
+    // Sizes a memory operand without size would have to take in signatures matched with implicit operands omitted. As
+    // only the implicit operands of such signatures tell the size, more than one size means that it's ambiguous.
+    InstDB::OpFlags implied_mem_sizes = InstDB::OpFlags::kNone;
+
     for (const InstDB::InstSignature& inst_signature : inst_signatures) {
       // Only match signatures that are compatible with the requested mode.
       if (!inst_signature.supports_mode(mode)) {
@@ -626,6 +630,8 @@ static ASMJIT_FAVOR_SIZE Error validate(InstDB::Mode mode, const BaseInst& inst,
       }
       else if (inst_op_count - inst_signature.implicit_op_count() == op_count) {
         uint32_t r = 0;
+        InstDB::OpFlags local_mem_sizes = InstDB::OpFlags::kNone;
+
         for (j = 0; j < op_count && r < inst_op_count; j++, r++) {
           const InstDB::OpSignature* op_chk = op_sig_translated + j;
           const InstDB::OpSignature* op_ref;
@@ -644,6 +650,16 @@ Next:
           if (!check_op_sig(*op_chk, *op_ref, local_imm_out_of_range)) {
             break;
           }
+
+          if (op_chk->has_flag(InstDB::OpFlags::kMemUnspecified)) {
+            local_mem_sizes |= op_ref->flags() & (InstDB::OpFlags::kMemMask & ~InstDB::OpFlags::kMemUnspecified);
+          }
+        }
+
+        if (j == op_count && !local_imm_out_of_range && local_mem_sizes != InstDB::OpFlags::kNone) {
+          // Matched, but the size of the memory operand is only implied - look at the remaining signatures as well.
+          implied_mem_sizes |= local_mem_sizes;
+          continue;
         }
       }
 
@@ -659,7 +675,14 @@ Next:
     }
 
     if (!inst_signature_matched) {
-      return make_error(global_imm_out_of_range ? Error::kInvalidImmediate : Error::kInvalidInstruction);
+      if (implied_mem_sizes == InstDB::OpFlags::kNone) {
+        return make_error(global_imm_out_of_range ? Error::kInvalidImmediate : Error::kInvalidInstruction);
+      }
+
+      // For example `div [mem]` could be any of `div ax, byte ptr [mem]`, `div dx, ax, word ptr [mem]`, etc...
+      if (!Support::is_power_of_2(uint64_t(implied_mem_sizes))) {
+        return make_error(Error::kAmbiguousOperandSize);
+      }
     }
   }
 
